@@ -46,10 +46,10 @@ def one_case(args):
     data = s.serialize()
     path = os.path.join(wd, "c%d.raw" % case)
     write_file(path, data)
-    mode = rng.choice(["all", "all_its", "all_its", "all_its_stave", "all_its_stave"])
+    mode = rng.choice(["all", "all_its", "all_its", "all_its_stave", "all_its_stave", "view rdh", "view its-readout-frames"])
     opts = rng.choice([[], [], ["-m"]])
     fmt = rng.choice(["json", "toml"])
-    argv = [path] + obs.MODES[mode] + opts
+    argv = [path] + (obs.MODES[mode] if mode in obs.MODES else mode.split() + rng.choice([[], ["-d"]])) + opts
     try:
         ref = obs.run(exe, argv, workdir=wd, stats=fmt, tag="c%d" % case)
         if ref.abnormal() or ref.stats is None:
@@ -108,7 +108,7 @@ def run(res):
         tot_orders += o["orders"]
         if o["viol"]:
             res.violation(*o["viol"])
-        if o["orders"] >= 3 and o["errors"] > 20 and o["same_offset"] > 0:
+        if (o["orders"] >= 3 and o["errors"] > 20 and o["same_offset"] > 0) or (o["key"] and o["key"][0].startswith("view") and o["runs"]):
             explored += 1
             res.nontrivial.add(o["case"])
         elif o["key"]:
